@@ -71,7 +71,7 @@ def lvAddr (bp : BitVec 64) (off : Nat → Int) (σ : Env) : LVal → Option (Bi
 def depthL : LVal → Nat
   | .var _ | .deref _ => 0
   | .member l _ => depthL l
-  | .index _ _ ie | .pindex _ _ ie => depthJ ie + 2
+  | .index _ _ ie | .pindex _ _ ie => depthJ ie + 1
 
 /-- variables the address computation may modify / the C11 no-conflict condition of its index expression -/
 def wrL : LVal → List Nat
@@ -83,6 +83,12 @@ def noConflictL : LVal → Bool
   | .var _ | .deref _ => true
   | .member l _ => noConflictL l
   | .index _ _ ie | .pindex _ _ ie => noConflict ie
+
+/-- the element sizes of subscripts fit a `long` (they are `sizeof` values) -/
+def wfL : LVal → Bool
+  | .var _ | .deref _ => true
+  | .member l _ => wfL l
+  | .index _ esz _ | .pindex _ esz _ => decide (ITy.i64.inRange esz)
 
 /-- the value of the lvalue: `gen_addr; load` (ND_VAR, ND_MEMBER, ND_DEREF of `gen_expr`) -/
 def loadCodeL (ca : List JI) (t : ITy) : List JI := ca ++ J (loadSeq t)
